@@ -293,6 +293,20 @@ void build_owning(vf::Explorer<OW<B>>& ex, size_t S, bool full_gallery, bool all
         add("ref-copy", "[" + iname + "]=[next]", [at](W& x, Errs&) {
             size_t i = at(x); if (i >= x.m.size()) return false; size_t j = (i + 1) % x.m.size();
             x.bs[i] = x.bs[j]; x.m[i] = x.m[j]; return true; });
+        // assignment from an LVALUE reference object (the const& overload; b[i] = b[j] above uses the && overload), source at another bit offset
+        for (size_t dj : {size_t(1), size_t(3)})
+            add("ref-copy-lvalue", "r=[" + iname + "+" + str(dj) + "] then [" + iname + "]=r", [at, dj](W& x, Errs&) {
+                size_t i = at(x); if (i >= x.m.size()) return false; size_t j = (i + dj) % x.m.size();
+                auto r = x.bs[j]; x.bs[i] = r; x.m[i] = x.m[j]; return true; });
+        add("ref-copy-const", "[" + iname + "]=const[next]", [at](W& x, Errs&) {
+            size_t i = at(x); if (i >= x.m.size()) return false; size_t j = (i + 1) % x.m.size();
+            const BS& c = x.bs; auto r = c[j]; bool v = r; x.bs[i] = v; x.m[i] = x.m[j]; return true; });
+        add("std-fill", "fill(begin+" + iname + ",end,[0])", [at](W& x, Errs&) {
+            size_t i = at(x); if (i >= x.m.size()) return false;
+            auto r = x.bs[0]; bool v0 = x.m[0];
+            std::fill(x.bs.begin() + std::ptrdiff_t(i), x.bs.end(), r);
+            for (size_t k = i; k < x.m.size(); ++k) x.m[k] = (k == 0) ? v0 : v0;
+            return true; });
         add("ref-not", "~[" + iname + "]", [at](W& x, Errs& e) { size_t i = at(x); if (i >= x.m.size()) return false; if ((~x.bs[i]) != !x.m[i]) e.add("value", "~reference wrong"); return true; });
     };
     for (size_t i : idx) bitops(str(i), [i](const W&) { return i; });
